@@ -83,8 +83,8 @@ func newPkg(pkg *packages.Package, u *Universe) Package {
 		signatures: make(map[*types.Signature]ast.Node),
 	}
 
-	for pkgPath := range pkg.Imports {
-		p.imports[pkgPath] = u.Package(pkgPath)
+	for pkgPath, imported := range pkg.Imports {
+		p.imports[pkgPath] = u.Package(imported.PkgPath)
 	}
 
 	fileLineFor := func(pos token.Pos, deltaLine int) fileLine {
